@@ -24,6 +24,53 @@ def build(ctx, per_cfg):
         for _ in range(per_cfg):
             stmts, m = g.document()
             out.append((cfg, g.render(stmts), stmts, m))
+        out += matrix_cases(cfg)
+    return out
+
+
+def expected_number(cfg, text):
+    """value the grammar assigns to a numeric literal, or None if the dialect has no such spelling"""
+    import re
+    m = re.fullmatch(r"[+-]?(\d+\.?\d*|\.\d+)([eE][+-]?\d+)?", text)
+    if m:
+        if re.fullmatch(r"[+-]?\d+", text):
+            return int(text)
+        return float(text)
+    nd = gen.TRAITS[cfg]["nd"]
+    m1 = re.fullmatch(r"([+-]?)(\d+)#([0-9A-Fa-f]+)#", text)
+    m2 = re.fullmatch(r"(\d+)#([+-]?)([0-9A-Fa-f]+)#", text)
+    for mm, sg, rd, dg in ((m1, 1, 2, 3), (m2, 2, 1, 3)):
+        if mm is None:
+            continue
+        radix = int(mm.group(rd))
+        if mm is m1 and nd == "odl" and mm.group(1):
+            continue
+        if mm is m2 and nd == "pvl" and mm.group(2):
+            continue
+        if nd == "pvl" and radix not in (2, 8, 16):
+            return None
+        if not (2 <= radix <= 16):
+            return None
+        try:
+            v = int(mm.group(dg), radix)
+        except ValueError:
+            return None
+        return -v if mm.group(sg) == "-" else v
+    return None
+
+
+def matrix_cases(cfg):
+    from ..pvlio import PVLModule, Quantity
+    out = []
+    for lit in gen.literal_matrix(cfg):
+        v = expected_number(cfg, lit)
+        if v is None:
+            continue
+        out.append((cfg, "a = %s" % lit, None, PVLModule([("a", v)])))
+        out.append((cfg, "a = (%s, 2)" % lit, None, PVLModule([("a", [v, 2])])))
+        out.append((cfg, "a = (1,%s)\nEND" % lit, None, PVLModule([("a", [1, v])])))
+        out.append((cfg, "a = %s <m>;b=1" % lit, None, PVLModule([("a", Quantity(v, "m")), ("b", 1)])))
+        out.append((cfg, "a=%s/* c */\nEND" % lit, None, PVLModule([("a", v)])))
     return out
 
 
@@ -62,7 +109,7 @@ def run(ctx):
         exp = expected_j(m)
         cls = pf.outcome_class(r)
         stats[cfg + ":" + cls] += 1
-        for st in stmts:
+        for st in (stmts or []):
             for tk in st:
                 kinds["tokens"] += 1
         why = None
